@@ -13,7 +13,7 @@ import (
 )
 
 func (sa *Safe) setState(dst, src *State) {
-	dst.itv, dst.nils, dst.facts, dst.mem, dst.guards, dst.dead, dst.logs = src.itv, src.nils, src.facts, src.mem, src.guards, src.dead, src.logs
+	dst.itv, dst.nils, dst.facts, dst.mem, dst.guards, dst.dead, dst.logs, dst.written = src.itv, src.nils, src.facts, src.mem, src.guards, src.dead, src.logs, src.written
 }
 
 func (sa *Safe) bindResult(fr *frame, x *ssa.Call, vals []AVal) {
